@@ -1,7 +1,23 @@
 (* The generated expansion kernel (gen/Expand_gen.v: the translation of the Python
    text of PcfgGrammar.omen_generate_guesses, _recursive_guesses and
    create_guesses, redone on every run by harness/translate_expand.py) equals the
-   hand-written model of Expand.v that the theorems of C04 / C09 / C17 are about. *)
+   hand-written model of Expand.v that the theorems of C04 / C09 / C17 are about.
+
+   Main names: omen_generate_guesses_eq, recursive_guesses_eq, create_guesses_eq
+   (generated = model: for every upper_c, grammar lookup gv, int() / MarkovCracker
+   oracle, every parse tree whose nodes resolve ([resolve]), every limit None / n >= 0
+   ([zlim]), fuel > len(pt), should_exit = false; the model's None is Exc LookupError);
+   recursive_guesses_never_out_of_fuel / create_guesses_never_out_of_fuel (ALL
+   inputs); source_* (theorems of C04 / C09 / C17 transported to the generated
+   functions); source_example_* (the hypotheses are satisfiable, the generated
+   code computes).
+
+   These proofs are meant to break when one of the Python functions changes its
+   meaning: the loop bodies of the generated text are compared with the model's
+   loop step (ExpandProofs.gloop) case by case ([split_tests; same_step]: the
+   limit tests `limit <= 0` / `limit == 0` against the model's [exhausted], the
+   decrement against [lim_sub]); they survive renamings, comments, reformatting
+   and rewrites that leave every loop step arithmetically the same. *)
 From Coq Require Import List Arith ZArith NArith Bool Lia.
 From Pcfg Require Import KernelRt Expand ExpandProofs ExpandRt.
 From PcfgGen Require Import Expand_gen.
@@ -483,6 +499,97 @@ Theorem source_omen_unlimited (gs : list str) :
   py_omen_generate_guesses false gs None = Ok (gs, Z.of_nat (length gs)) /\
   py_omen_generate_guesses false gs (Some 0%Z) = Ok (gs, Z.of_nat (length gs)).
 Proof. split; [exact (omen_generate_guesses_eq gs None)|exact (omen_generate_guesses_eq gs (Some 0))]. Qed.
+
+(* ------------------------------------------------------------------ *)
+(* never out of fuel, for ALL inputs (any parse tree, resolvable or     *)
+(* not, any limit incl. negative ints, any should_exit)                *)
+(* ------------------------------------------------------------------ *)
+Definition not_oof {X : Type} (r : res X) : Prop := r <> Exc OutOfFuel.
+(* a loop step that leaves the function does not leave it with OutOfFuel *)
+Definition stepP {R St : Type} (P : R -> Prop) (c : ctl R St) : Prop :=
+  match c with Continue _ => True | Return r => P r end.
+
+Lemma for_from_inv {X R St : Type} (P : R -> Prop) (l : list X) :
+  forall i (body : nat -> X -> St -> ctl R St) s k,
+  (forall i x s, stepP P (body i x s)) ->
+  (forall s, P (k s)) ->
+  P (for_from i l body s k).
+Proof.
+  induction l as [|x l IH]; intros i body s k Hb Hk; cbn [for_from].
+  - apply Hk.
+  - pose proof (Hb i x s) as Hx. destruct (body i x s) as [s'|r]; [|exact Hx].
+    apply IH; assumption.
+Qed.
+
+Lemma bindx_inv {X Y : Type} (P : Y -> Prop) (r : res X) (h : exc -> Y) (k : X -> Y) :
+  not_oof r -> (forall e, e <> OutOfFuel -> P (h e)) -> (forall x, P (k x)) -> P (bindx r h k).
+Proof.
+  intros Hr Hh Hk. destruct r as [x|e]; cbn [bindx]; [apply Hk|].
+  apply Hh. intros ->. now apply Hr.
+Qed.
+
+Lemma lookup_not_oof {X : Type} (o : option X) : not_oof (lookup o).
+Proof. destruct o; discriminate. Qed.
+Lemma seq_index_not_oof {X : Type} (l : list X) (i : Z) : not_oof (seq_index l i).
+Proof. unfold seq_index. destruct (py_index (length l) i); [apply lookup_not_oof|discriminate]. Qed.
+Lemma str_index_not_oof (s : pstr) (i : Z) : not_oof (str_index s i).
+Proof.
+  unfold str_index. apply (bindx_inv not_oof); [apply seq_index_not_oof| |discriminate].
+  intros e He H. inversion H. contradiction.
+Qed.
+
+(* walks through the generated text: every exception comes from a subscript, a lookup or
+   a callee that is itself never out of fuel; [prim] proves the latter *)
+Ltac walk prim :=
+  cbv beta iota zeta;
+  lazymatch goal with
+  | |- stepP _ (Continue _) => exact I
+  | |- stepP _ (Return _) => cbn [stepP]; walk prim
+  | |- not_oof (Ok _) => discriminate
+  | |- ?Q (bindx ?r _ _) =>
+      apply (bindx_inv Q);
+      [ prim
+      | let e := fresh "e" in let He := fresh "He" in
+        intros e He; cbv beta; cbn [stepP]; intros H; inversion H; contradiction
+      | intros ?; walk prim ]
+  | |- ?Q (if_truthy ?l _ _) => destruct l as [?|]; cbn [if_truthy]; walk prim
+  | |- ?Q (if ?c then _ else _) => destruct c; walk prim
+  | |- ?Q (for_each _ _ _ _) => unfold for_each; walk prim
+  | |- ?Q (for_from _ _ _ _ _) =>
+      apply (for_from_inv Q); [intros ? ? ?; walk prim | intros ?; walk prim]
+  | |- ?Q (match ?x with pair _ _ => _ end) => destruct x; walk prim
+  end.
+
+Ltac prim0 :=
+  first [ apply seq_index_not_oof | apply str_index_not_oof | apply lookup_not_oof ].
+
+Lemma omen_never_out_of_fuel (se : bool) (gs : list pstr) (limit : option Z) :
+  not_oof (py_omen_generate_guesses se gs limit).
+Proof. unfold py_omen_generate_guesses. walk prim0. Qed.
+
+Theorem recursive_guesses_never_out_of_fuel (upper_c : N -> pstr) (gv : pstr -> Z -> option (list pstr))
+        (py_int : pstr -> Z) (mcr : Z -> list pstr) (se : bool) :
+  forall (pt : list pnode) (fuel : nat) (cur : pstr) (limit : option Z), length pt < fuel ->
+  not_oof (py_recursive_guesses upper_c gv py_int mcr se fuel cur pt limit).
+Proof.
+  induction pt as [|nd ptr IH]; intros fuel cur limit Hf.
+  - destruct fuel as [|f]; [cbn in Hf; lia|]. cbn. discriminate.
+  - destruct fuel as [|f]; [cbn in Hf; lia|]. cbn [length] in Hf.
+    cbn [py_recursive_guesses].
+    walk ltac:(first [ prim0 | apply omen_never_out_of_fuel
+                     | rewrite slice_from_1; apply IH; lia ]).
+Qed.
+
+Theorem create_guesses_never_out_of_fuel (upper_c : N -> pstr) (gv : pstr -> Z -> option (list pstr))
+        (py_int : pstr -> Z) (mcr : Z -> list pstr) (se : bool)
+        (honey : pstr -> list pnode -> option Z -> res (list pstr * Z))
+        (pt : list pnode) (fuel : nat) (limit : option Z) :
+  length pt < fuel ->
+  not_oof (py_create_guesses upper_c gv py_int mcr se honey fuel pt false limit).
+Proof.
+  intros Hf. unfold py_create_guesses. cbn [negb].
+  walk ltac:(apply recursive_guesses_never_out_of_fuel; exact Hf).
+Qed.
 
 (* ------------------------------------------------------------------ *)
 (* the hypotheses are satisfiable and the generated code runs:         *)
